@@ -21,7 +21,9 @@ CHATTER = ['', 'hello', '  padded  ', '\tTab padded\t', '[123] not a message', '
            # characters that some line splitters (str.splitlines, codecs readers) treat as line ends; a very long line
            'form\x0cfeed', 'unit\x1fsep \x1c \x85 next', 'line\u2028sep \u2029 par', 'y' * 20000,
            # a program's own coloured output is that line's text
-           '\x1b[32m INFO\x1b[0m app: started', 'reset \x1b[0m only']
+           '\x1b[32m INFO\x1b[0m app: started', 'reset \x1b[0m only',
+           # a message interrupted inside a string argument (another thread's output cut in, the program was killed)
+           '[5000000.150] wl_registry@2.global(4, "wl_comp', '[5000000.150]  -> xdg_toplevel@9.set_title("half a ti']
 
 
 def _m(t, sent, iface, oid, name, args, conn=None):
@@ -256,8 +258,11 @@ def eval_truncation(case):
                     opened.add(outparse.classify(it[1])[1]['conn'])
         if partial:
             g = groups[ncomplete]
-            if g is None or len(essential(g)) > 1:
-                V.append(Violation('truncation.cut_line', case, {'cut_line': cut.split('\n')[-1], 'observed': g}))
+            # the cut line is a line like any other: exactly one item (its text passed through, or - when the cut leaves
+            # a complete message - that message); a cut line of blanks only may come out as an empty item or as none
+            last = cut.split('\n')[-1]
+            if g is None or len(essential(g)) > 1 or (len(essential(g)) == 0 and last.strip()):
+                V.append(Violation('truncation.cut_line', case, {'cut_line': last, 'observed': g}))
         closed = [outparse.classify(it[1])[1] for it in (tail or []) if kind_of(it) == 'notice']
         if tail is None or len(closed) != len(tail) or any(c['what'] != 'Closed' for c in closed) or \
                 sorted(c['conn'] for c in closed) != sorted(opened):
